@@ -34,7 +34,7 @@ type DrvCase struct {
 	ReadDelayNS int64      `json:"read_delay_ns"`
 	HelloLF     bool       `json:"hello_lf"`
 	DelaysNS    []int64    `json:"delays_ns,omitempty"`
-	// HelloEchoMayShareRead reproduces the known finding echo-hello-shares-read (witness only).
+	// HelloEchoMayShareRead: obsolete, see sim.NCServer (old witness files carry it).
 	HelloEchoMayShareRead bool `json:"hello_echo_may_share_read,omitempty"`
 }
 
